@@ -71,6 +71,7 @@ def regions(cms, kind):
             r.setdefault("signature", []).append((octs[-1][2], octs[-1][3]))
     if kind == "sign":
         ci = f[2][4]
+        r["ctype"] = [(ci[0][2], ci[0][3])]          # the inner contentType: the signed digest covers the content-info header
         if len(ci) > 1:
             c = ci[1][4][0]
             if c[3]:
@@ -82,6 +83,7 @@ def regions(cms, kind):
         rinfos(f[1]); eci(f[2])
     else:
         rinfos(f[1]); eci(f[3]); sinfos(f[-1])
+        r["ctype"] = [(f[3][4][0][2], f[3][4][0][3])]
     return r
 
 
@@ -203,7 +205,9 @@ def body():
                 if ln == 0:
                     continue
                 nb = ln * 8
-                if c.quick:
+                if name == "ctype":
+                    bits = range(nb - 16, nb)
+                elif c.quick:
                     bits = sorted(set([0, 7, nb - 1, nb - 8] + [rng.randrange(nb) for _ in range(3 if ln > 64 else 6)]))
                 elif ln <= 128 and line["id"] % 3 == 0:
                     bits = range(nb)
